@@ -117,6 +117,10 @@ func Run(args []string) int {
 			p, c, plus := pid, cls, i%2 == 1
 			jobs = append(jobs, func() line { return applyDirectedCase(cr, root, p, c, plus) })
 		}
+		cr := r.Fork()
+		pid++
+		p := pid
+		jobs = append(jobs, func() line { return staleDirectedCase(cr, root, p) })
 	}
 	for i := 0; i < *nHandler; i++ {
 		cr := r.Fork()
